@@ -272,6 +272,9 @@ func (e *Enc) rangeInstr(fr *Frame, st *State, x *ssa.Range) {
 	cn, cs := itComp(mc, x)
 	e.setComp(st, cn, cs, constArr(mc.ks, "Bool", "false"))
 	e.setComp(st, cn+"#steps", "Int", "0")
+	// the domain when the iteration started: the step counter is related to the length only
+	// while the domain is still that one (a body that deletes or inserts breaks the relation)
+	e.setComp(st, cn+"#dom0", cs, sel(e.comp(st, mc.dom, mc.domS), e.val(fr, st, x.X).term()))
 	if fr.iters == nil {
 		fr.iters = map[ssa.Value]*iterInfo{}
 	}
@@ -311,7 +314,8 @@ func (e *Enc) nextInstr(fr *Frame, st *State, x *ssa.Next) {
 	e.mapFacts(st, mt, ref, ok)
 	// number of keys produced so far: each key is produced at most once
 	steps := e.comp(st, it.comp+"#steps", "Int")
-	e.assume(st, fmt.Sprintf("(and (<= 0 %s) (=> %s (< %s %s)))", steps, ok, steps, e.mapLen(st, mt, ref)))
+	same := eq(sel(d, ref), e.comp(st, it.comp+"#dom0", it.compSort))
+	e.assume(st, fmt.Sprintf("(and (<= 0 %s) (=> (and %s %s) (< %s %s)) (=> (and (not %s) %s) (= %s %s)))", steps, ok, same, steps, e.mapLen(st, mt, ref), ok, same, steps, e.mapLen(st, mt, ref)))
 	e.setComp(st, it.comp+"#steps", "Int", fmt.Sprintf("(+ %s 1)", steps))
 	// the visited set after this step (only meaningful when ok)
 	e.setComp(st, it.comp, it.compSort, mapSto(vis, ks, "true"))
